@@ -15,6 +15,11 @@ palette, which used to be re-sent) and requests that need 17..19 SGR parameters 
 (b) keep the inputs that trigger the *remaining* known findings of C10 (known/C10.json: curly underline without colon
 sub-parameters, TICKIT_PEN_SIZEPOS_SMALL) out of the main stream: those are produced deliberately, in a small number of
 histories placed at the END of the file, so that they never use up the per-run budget of histories bin/check examines.
+A quarter of the histories start with a pen already in force (`new … <pen>`: see harness/sgr.c), and a systematic sweep asks,
+for every attribute and every class of value it can take (including the values no SGR parameter exists for), for a request
+whose ONLY effective change is that attribute while a non-default pen is in force -- once by chpen {attr}, once by setpen of the
+whole logical pen with that attribute replaced: such a request must leave everything else on the terminal as it is.  The
+members of the sweep that run into a known finding are, again, placed at the end.
 Tiers: quick, thorough (x10), exhaustive (every history of <= 3 requests over a pen basis, for every configuration).
 """
 import argparse, random, json, itertools, collections
@@ -224,6 +229,15 @@ def next_op(cfg, l, prev, allow):
         else:
             p[k] = value(cfg, k, allow)
         kind = "mutate-one"
+    elif r < 0.78 and l:
+        # exactly one attribute of the logical pen changes: by chpen {attr} or by setpen of the whole logical pen with it replaced
+        k = rng.choice(ATTRS)
+        v = value(cfg, k, allow)
+        if is_set:
+            p = overlay(total(l), {k: v})
+        else:
+            p = {k: v}
+        kind = "single-effective-change"
     elif r < 0.86:
         p, kind = default_pen(cfg, l), "all-default"
     elif r < 0.90:
@@ -258,7 +272,11 @@ GROUP = 1           # logical histories per protocol history (`renew` = fresh te
 group_fill = [0]
 
 
-def new_line(cfg, grouped=False):
+def new_line(cfg, grouped=False, init=None):
+    return _new_line(cfg, grouped) + ("" if init is None else " " + pen_text(init))
+
+
+def _new_line(cfg, grouped=False):
     word = "new"
     if grouped:
         if group_fill[0] % GROUP != 0:
@@ -278,12 +296,36 @@ def random_cfg(kind=None):
     return {"kind": "g", "colors": rng.choice([8, 16, 88, 256]), "rgb8": rng.randint(0, 1), "colon": rng.randint(0, 1)}
 
 
-def history(cfg, nops, allow, want=None):
-    """emit one history; `allow` = the known-finding triggers this history may contain"""
+def nondefault_pen(cfg, avoid=None):
+    """a pen (free of known-finding triggers) with at least two attributes at non-default values, `avoid` left out"""
+    for _ in range(50):
+        p = trim(cfg, {}, random_pen(cfg, set()), True, set())
+        if p is None:
+            continue
+        if avoid:
+            p.pop(avoid, None)
+        nd = [k for k in p if p[k] != DEFAULT[k] and not (k in ("fg", "bg") and p[k][0] < 0) and not (k == "af" and p[k] in (-1, 0))]
+        if len(nd) >= 2:
+            return p
+    return {"b": 1, "fg": (2, None)}
+
+
+def history(cfg, nops, allow, want=None, init=None, script=None):
+    """emit one history; `allow` = the known-finding triggers this history may contain; `init` = pen in force at the start
+    (part of the head line); `script` = requests to issue first (list of (is_set, pen, kind))"""
     out = []
     l, prev, seen = {}, None, set()
-    for it in range(nops):
-        is_set, p, kind = next_op(cfg, l, prev, allow)
+    if init is not None:
+        l, prev = total(init), init
+        stats["start:pen-in-force"] += 1
+    script = list(script or [])
+    for it in range(nops + len(script)):
+        if script:
+            is_set, p, kind = script.pop(0)
+            if callable(p):
+                p = p(l)
+        else:
+            is_set, p, kind = next_op(cfg, l, prev, allow)
         p = trim(cfg, l, p, is_set, allow)
         if p is None:
             continue
@@ -307,7 +349,7 @@ def history(cfg, nops, allow, want=None):
         l, prev = l2, p
     if want and want not in seen:
         return False
-    lines.append(new_line(cfg, grouped=not allow))
+    lines.append(new_line(cfg, grouped=not allow, init=init))
     lines.extend(out)
     n_hist[cfg["kind"] + (":" + "+".join(sorted(allow)) if allow else "")] += 1
     stats["cfg:%s colors=%d rgb8=%d colon=%d" % (cfg["kind"], cfg["colors"], cfg["rgb8"], cfg["colon"])] += 1
@@ -374,7 +416,49 @@ for r in (0, 1):
 for n in (8, 16, 88, 256):
     history({"kind": "g", "colors": n, "rgb8": rng.randint(0, 1), "colon": rng.randint(0, 1)}, 14, set())
 for _ in range(N):
-    history(random_cfg(), rng.choice([3, 6, 10, 16, 24]), set())
+    cfg = random_cfg()
+    history(cfg, rng.choice([3, 6, 10, 16, 24]), set(), init=nondefault_pen(cfg) if rng.random() < 0.25 else None)
+
+
+# the sweep: one attribute changes, to every class of value, while a non-default pen is in force
+def value_classes(cfg, k):
+    c = cfg["colors"]
+    if k in ("fg", "bg"):
+        return [(-1, None), (3, None), (12, None), (min(c, 255), None), (200, (10, 0, 255)), (17, (0, 0, 0))]
+    if k in BOOLS:
+        return [0, 1]
+    if k == "u":
+        return [0, 1, 2, 3]
+    if k == "af":
+        return [-1, 0, 1, 9, 12]
+    return [0, 1, 2, 3]          # sizepos: normal, small, superscript, subscript
+
+
+def sweep(cfgs, late):
+    """`late` collects the members that run into a known finding (emitted at the end of the file)"""
+    for cfg in cfgs:
+        for k in ATTRS:
+            for v in value_classes(cfg, k):
+                for form in (False, True):
+                    t = triggers(cfg, {}, {k: v}, False)
+                    init = nondefault_pen(cfg, avoid=k if rng.random() < 0.5 else None)
+                    if form:
+                        mk = lambda l, k=k, v=v: overlay(total(l), {k: v})
+                    else:
+                        mk = lambda l, k=k, v=v: {k: v}
+                    item = (cfg, init, [(form, mk, "sweep-one-attribute")], t)
+                    if t:
+                        late.append(item)
+                    else:
+                        history(cfg, rng.choice([0, 1, 3]), set(), init=init, script=item[2])
+
+
+late = []
+sweep_cfgs = [{"kind": "x", "colors": 256, "rgb8": rng.randint(0, 1), "colon": c, "how": rng.choice(["reply", "ctl"])} for c in (0, 1)] + \
+             [{"kind": "g", "colors": rng.choice([8, 16, 88, 256]), "rgb8": rng.randint(0, 1), "colon": rng.randint(0, 1)}]
+if a.tier != "quick":
+    sweep_cfgs = sweep_cfgs * 4
+sweep(sweep_cfgs, late)
 # the known findings, deliberately, at the end (a handful of histories each)
 K = 3 if a.tier == "quick" else 12
 group_fill[0] = 0
@@ -384,6 +468,11 @@ for _ in range(K):
         for _try in range(50):
             if history(mk(), rng.choice([4, 8, 12]), {want}, want=want):
                 break
+
+# ... and the members of the sweep that run into one (quick: at most 8 of them, the real driver first)
+late.sort(key=lambda it: it[0]["kind"] != "x")
+for (cfg, init, script, t) in late[: (8 if a.tier == "quick" else 40)]:
+    history(cfg, rng.choice([0, 1, 2]), set(t), init=init, script=script)
 
 open(a.out, "w").write("\n".join(lines) + "\n")
 print(json.dumps({"ops": len(lines), "histories": sum(n_hist.values()), "by_class": dict(n_hist),
